@@ -29,9 +29,11 @@ func goP(threshold uint64, total *big.Int) float64 {
 	return p
 }
 
-func fb(x float64) uint64     { return math.Float64bits(x) }
-func ff(b uint64) float64     { return math.Float64frombits(b) }
-func finiteNonNeg(x float64) bool { return !math.IsNaN(x) && !math.IsInf(x, 0) && x >= 0 && !math.Signbit(x) }
+func fb(x float64) uint64 { return math.Float64bits(x) }
+func ff(b uint64) float64 { return math.Float64frombits(b) }
+func finiteNonNeg(x float64) bool {
+	return !math.IsNaN(x) && !math.IsInf(x, 0) && x >= 0 && !math.Signbit(x)
+}
 
 var cdfNotFinite int // gonum returned NaN/Inf/negative on an in-domain input (model assumption broken)
 var cdfPanics int
